@@ -201,9 +201,9 @@ func runUpgrader(t *testing.T, tape *simrt.Tape, g simrt.Gen, o *common.Outcome)
 			continue
 		}
 		want := pidOf(u.truth)
-		derived, err := peer.IDFromPublicKey(u.rKey)
+		derived, err := derive(u.rKey)
 		switch {
-		case u.rKey == nil || err != nil:
+		case err != nil:
 			o.Violate("C01/remote-key-missing/upgrader/"+rl, "%s: %s upgraded but RemotePublicKey() is unusable (%v)", what, u.role, err)
 		case derived != u.rPeer:
 			o.Violate("C01/remote-peer-not-derived-from-key/upgrader/"+rl, "%s: %s reports RemotePeer()=%s but RemotePublicKey() derives %s", what, u.role, nameOf(u.rPeer), nameOf(derived))
